@@ -135,6 +135,60 @@ Proof. vm_compute. reflexivity. Qed.
 Theorem reviewed_loops_exist : forallb (fun j => Nat.eqb (open_in (fst j)) (snd j)) open_loops_ok = true.
 Proof. vm_compute. reflexivity. Qed.
 
+(** for-loops whose increment walks the chunk list (for (...; cond; v = v->GetNext..())) and whose condition neither tests
+    for the null chunk nor is a positive type test: per function, the number that were reviewed.  All are of the form
+    'v != end' with an end point located before the loop; the dynamic part of the C06 check (truncated and mutated files
+    under sanitizers) is what backs the reviews *)
+Definition open_for_loops_ok : list (list Z * nat) := [
+  (* EnumStructUnionParser::mark_where_clause: walks from where_start to where_end, found by a forward search *)
+  ([69;110;117;109;83;116;114;117;99;116;85;110;105;111;110;80;97;114;115;101;114;58;58;109;97;114;107;95;119;104;101;114;101;95;99;108;97;117;115;101], 1%nat);
+  (* add_func_header: walks from ref to 'after', the chunk GetNextNcNnl() returned for ref (null chunk included: the walk stops there) *)
+  ([97;100;100;95;102;117;110;99;95;104;101;97;100;101;114], 1%nat);
+  (* add_msg_header: walks from ref to 'after', the chunk GetNextNcNnl() returned for ref *)
+  ([97;100;100;95;109;115;103;95;104;101;97;100;101;114], 1%nat);
+  (* add_parens_between: walks from the first chunk behind the inserted '(' to last_prev, a non-comment chunk in front of 'last' located by GetPrevNcNnl *)
+  ([97;100;100;95;112;97;114;101;110;115;95;98;101;116;119;101;101;110], 1%nat);
+  (* collapse_empty_body: walks from an open brace to its close brace; unmatched braces are refused before the newline passes run (exit 74) *)
+  ([99;111;108;108;97;112;115;101;95;101;109;112;116;121;95;98;111;100;121], 1%nat);
+  (* do_symbol_check: walks from pc to the semicolon found by a forward search from pc *)
+  ([100;111;95;115;121;109;98;111;108;95;99;104;101;99;107], 1%nat);
+  (* handle_cs_square_stmt: walks from the open square to its matching close square *)
+  ([104;97;110;100;108;101;95;99;115;95;115;113;117;97;114;101;95;115;116;109;116], 1%nat);
+  (* handle_oc_block_literal: walks between matched bracket chunks located before the loop *)
+  ([104;97;110;100;108;101;95;111;99;95;98;108;111;99;107;95;108;105;116;101;114;97;108], 2%nat);
+  (* handle_oc_md_type: walks from the open to the matching close parenthesis *)
+  ([104;97;110;100;108;101;95;111;99;95;109;100;95;116;121;112;101], 1%nat);
+  (* handle_oc_message_send: walks between matched bracket chunks located before the loop *)
+  ([104;97;110;100;108;101;95;111;99;95;109;101;115;115;97;103;101;95;115;101;110;100], 2%nat);
+  (* mark_cpp_lambda: walks from the lambda's square bracket to its closing brace, both located before *)
+  ([109;97;114;107;95;99;112;112;95;108;97;109;98;100;97], 1%nat);
+  (* mod_case_brace_add: walks between the two brace chunks just inserted into the list *)
+  ([109;111;100;95;99;97;115;101;95;98;114;97;99;101;95;97;100;100], 1%nat);
+  (* mod_case_brace_remove: walks from the open brace to the close brace of one case block, both located before the loop *)
+  ([109;111;100;95;99;97;115;101;95;98;114;97;99;101;95;114;101;109;111;118;101], 2%nat);
+  (* newline_add_between: walks from start to end; callers pass two chunks of one list with start in front of end (checked by IsNullChunk tests before the loop) *)
+  ([110;101;119;108;105;110;101;95;97;100;100;95;98;101;116;119;101;101;110], 1%nat);
+  (* newline_after_return: walks from the semicolon to 'after', the chunk GetNextNcNnl() returned for it *)
+  ([110;101;119;108;105;110;101;95;97;102;116;101;114;95;114;101;116;117;114;110], 1%nat);
+  (* newlines_cleanup_braces: walks from pc to 'end', found by a forward search from pc *)
+  ([110;101;119;108;105;110;101;115;95;99;108;101;97;110;117;112;95;98;114;97;99;101;115], 1%nat);
+  (* process_return_or_throw: walks from next to cpar, the closing parenthesis matched before *)
+  ([112;114;111;99;101;115;115;95;114;101;116;117;114;110;95;111;114;95;116;104;114;111;119], 2%nat)
+].
+
+Definition open_for_in (f : list Z) : nat :=
+  length (filter (fun l => (snd l =? 2) && beqb (snd (fst (fst l))) f) for_loops).
+
+Definition unreviewed_for_loops : list (list Z) :=
+  filter (fun f => negb (existsb (fun j => beqb (fst j) f && Nat.leb (open_for_in f) (snd j)) open_for_loops_ok))
+         (map (fun l => snd (fst (fst l))) (filter (fun l => snd l =? 2) for_loops)).
+
+Theorem for_walks_are_guarded : unreviewed_for_loops = [].
+Proof. vm_compute. reflexivity. Qed.
+
+Theorem reviewed_for_loops_exist : forallb (fun j => Nat.eqb (open_for_in (fst j)) (snd j)) open_for_loops_ok = true.
+Proof. vm_compute. reflexivity. Qed.
+
 (** loops of the tokenizer that consume input characters (ctx.get()/ctx.expect()): every one tests ctx.more(), runs on a
     counter, or only continues on characters of a named class (peek() returns 0 at the end of the input) *)
 Definition open_char_loops : list (list Z) :=
